@@ -148,6 +148,7 @@ func (p *idxProver) minLen(v ssa.Value, at ssa.Instruction) int {
 	// facts
 	first := -1
 	notOneChar := map[int]bool{} // v != "c" for these c
+	notLen := map[int]bool{}     // len(v) != c for these c
 	for _, f := range p.facts(at) {
 		b, ok := f.Cond.(*ssa.BinOp)
 		if !ok {
@@ -192,6 +193,7 @@ func (p *idxProver) minLen(v ssa.Value, at ssa.Instruction) int {
 						if c == 0 {
 							up(1)
 						}
+						notLen[int(c)] = true
 					}
 				}
 			}
@@ -207,6 +209,9 @@ func (p *idxProver) minLen(v ssa.Value, at ssa.Instruction) int {
 	}
 	if best >= 1 && first >= 0 && notOneChar[first] {
 		up(2) // non-empty, starts with c, is not "c"  =>  at least two bytes
+	}
+	for notLen[best] {
+		up(best + 1) // len >= n and len != n  =>  len >= n+1
 	}
 	// parameters: pre-condition (checked at call sites by the caller of prove)
 	if prm, ok := v.(*ssa.Parameter); ok && best == 0 {
